@@ -276,6 +276,10 @@ impl ZmtpUringHandler {
     }
   }
 
+  fn is_tcp(&self) -> bool {
+    self.worker_io_config.endpoint_uri.starts_with("tcp://")
+  }
+
   /// Translate an `EngineOutput` into `HandlerIoOps`, with side-effects:
   /// - `AppAction::HandshakeComplete` → send `UringConnectionEstablished` to SocketCore
   /// - `AppAction::DeliverMessage` → push batch to `inbound_data_tx`
@@ -305,16 +309,22 @@ impl ZmtpUringHandler {
           }
         }
         NetAction::SetCork(enable) => {
-          ops
-            .sqe_blueprints
-            .push(HandlerSqeBlueprint::RequestSetCork(enable));
+          // TCP_CORK exists on TCP sockets only: on an ipc (AF_UNIX) connection the setsockopt
+          // fails, and a failed operation closes the connection.
+          if self.is_tcp() {
+            ops
+              .sqe_blueprints
+              .push(HandlerSqeBlueprint::RequestSetCork(enable));
+          }
         }
         NetAction::ScheduleClose(delay) => {
           if let Some(d) = delay {
             // Non-blocking: uncork to flush TCP, then arm deadline.
-            ops
-              .sqe_blueprints
-              .push(HandlerSqeBlueprint::RequestSetCork(false));
+            if self.is_tcp() {
+              ops
+                .sqe_blueprints
+                .push(HandlerSqeBlueprint::RequestSetCork(false));
+            }
             self.close_deadline = Some(Instant::now() + d);
             self.is_closing = true;
           } else {
